@@ -1671,6 +1671,7 @@ package sod
 //@ serves C17 C11
 //@ trusted "reflection-bodied (recFieldDescriptors): one descriptor per scalar leaf field of the struct, keyed by its path"
 //@ requires from != nil
+//@ ensures descType(desc) == dyntype(from)
 //@ ensures desc != nil && fresh(desc) && forallk(p, string, has(desc, p) == fieldok(dyntype(from), p) && imp(has(desc, p), desc[p].Path == p && desc[p].Type == ftypeOf(dyntype(from), p)))
 //@ modifies nothing
 //@ allocates MapDom[string,FieldDescriptor], MapVal[string,FieldDescriptor], MapCard[string,FieldDescriptor]
@@ -2357,3 +2358,95 @@ package sod
 //@ ensures [C17 AssignIndex.readonly] FSk == old(FSk) && FSc == old(FSc)
 //@ modifies Ghost.ACQ_H, MapDom[string,*Schema]@db.schemas, MapVal[string,*Schema]@db.schemas, MapCard[string,*Schema]@db.schemas, Async.routineStarted
 //@ allocates Async.Enable, Async.Threshold, Async.Timeout, Elem[*indexedField], Elem[string], MapCard[string,*fieldIndex], MapCard[string,uint64], MapCard[uint64,*indexedField], MapCard[uint64,string], MapDom[string,*fieldIndex], MapDom[string,uint64], MapDom[uint64,*indexedField], MapDom[uint64,string], MapVal[string,*fieldIndex], MapVal[string,uint64], MapVal[uint64,*indexedField], MapVal[uint64,string], Schema.AsyncWrites, Schema.Cache, Schema.Compress, Schema.Extension, Schema.Fields, Schema.ObjectIndex, Schema.coherent, Schema.db, Schema.object, Schema.transformers, fieldIndex.Cast, fieldIndex.Constraints.Index, fieldIndex.Constraints.Lower, fieldIndex.Constraints.Unique, fieldIndex.Constraints.Upper, fieldIndex.Index, fieldIndex.Name, fieldIndex.nameSplit, fieldIndex.objectIds, fieldIndex.pos, indexedField.ObjectId, indexedField.Value, objIndex.Fields, objIndex.ObjectIds, objIndex.i, objIndex.otype, objIndex.uuids, objIndex.ver
+
+
+// ---- schema creation and update (C17, C10) ------------------------------------------------------------
+
+// reflection-free but built from descriptors only: the index of a new collection (assumed contract)
+//@ func newIndex
+//@ serves C17 C01
+//@ trusted "assumed: a fresh, empty, well formed index with one field index per indexed descriptor, for the type the descriptors describe"
+//@ requires fields != nil
+//@ ensures result != nil && fresh(result) && wfIndex(result) && result.base >= old(allocmark()) && result.otype == descType(fields) && result.i == 0 && result.ver == 0
+//@ ensures forallk(u, string, !has(result.uuids, u)) && forallk(k, uint64, !has(result.ObjectIds, k)) && forallk(f, string, imp(has(result.Fields, f), len(result.Fields[f].Index) == 0))
+//@ modifies nothing
+//@ allocates objIndex.i, objIndex.uuids, objIndex.Fields, objIndex.ObjectIds, objIndex.otype, objIndex.ver, objIndex.base, MapDom[string,uint64], MapVal[string,uint64], MapCard[string,uint64], MapDom[uint64,string], MapVal[uint64,string], MapCard[uint64,string], MapDom[string,*fieldIndex], MapVal[string,*fieldIndex], MapCard[string,*fieldIndex], fieldIndex.Name, fieldIndex.Cast, fieldIndex.Constraints, fieldIndex.Index, fieldIndex.objectIds, fieldIndex.nameSplit, fieldIndex.pos, MapDom[uint64,*indexedField], MapVal[uint64,*indexedField], MapCard[uint64,*indexedField], Elem[*indexedField], Elem[string]
+
+//@ func (FieldDescMap).Transformers
+//@ serves C15 C16
+//@ ensures [tr.fresh] fresh(arr(t)) || len(t) == 0
+//@ loop 1 invariant [fresh] fresh(arr(t)) || cap(t) == 0
+//@ loop 1 invariant [frame] preserved(Elem[FieldDescriptor].Path, Elem[FieldDescriptor].Type, Elem[FieldDescriptor].Constraints.Index, Elem[FieldDescriptor].Constraints.Unique, Elem[FieldDescriptor].Constraints.Upper, Elem[FieldDescriptor].Constraints.Lower)
+//@ modifies nothing
+//@ allocates MapDom[string,FieldDescriptor], MapVal[string,FieldDescriptor].Constraints.Index, MapVal[string,FieldDescriptor].Constraints.Lower, MapVal[string,FieldDescriptor].Constraints.Unique, MapVal[string,FieldDescriptor].Constraints.Upper, MapVal[string,FieldDescriptor].Path, MapVal[string,FieldDescriptor].Type
+//@ allocates Elem[FieldDescriptor].Constraints.Index, Elem[FieldDescriptor].Constraints.Lower, Elem[FieldDescriptor].Constraints.Unique, Elem[FieldDescriptor].Constraints.Upper, Elem[FieldDescriptor].Path, Elem[FieldDescriptor].Type, FieldDescriptor.Constraints.Index, FieldDescriptor.Constraints.Lower, FieldDescriptor.Constraints.Unique, FieldDescriptor.Constraints.Upper, FieldDescriptor.Path, FieldDescriptor.Type
+
+//@ func (*Schema).initialize
+//@ serves C10 C17 C01
+//@ requires [wf] s != nil && o != nil && imp(s.AsyncWrites != nil, allocated(s.AsyncWrites))
+//@ assume [described-type] imp(s.Fields != nil, descType(s.Fields) == dyntype(o))
+//@ ensures [C17 init.ok] err == nil && s.db == db && s.object == o && s.Fields != nil && s.ObjectIndex != nil && descType(s.Fields) == dyntype(o)
+//@ ensures [C17 init.keeps] imp(old(s.ObjectIndex) != nil, s.ObjectIndex == old(s.ObjectIndex)) && imp(old(s.Fields) != nil, s.Fields == old(s.Fields)) && s.Extension == old(s.Extension) && s.Cache == old(s.Cache) && s.Compress == old(s.Compress)
+//@ ensures [C17 init.new-index] imp(old(s.ObjectIndex) == nil, fresh(s.ObjectIndex) && wfIndex(s.ObjectIndex) && s.ObjectIndex.otype == dyntype(o) && s.ObjectIndex.base >= old(allocmark()) && forallk(u, string, !has(s.ObjectIndex.uuids, u)))
+//@ ensures [C10 C17 init.async-copied] imp(old(s.AsyncWrites) == nil, s.AsyncWrites == nil) && imp(old(s.AsyncWrites) != nil, s.AsyncWrites != nil && fresh(s.AsyncWrites) && s.AsyncWrites.Enable == old(s.AsyncWrites.Enable) && s.AsyncWrites.Threshold == old(s.AsyncWrites.Threshold) && s.AsyncWrites.Timeout == old(s.AsyncWrites.Timeout) && !s.AsyncWrites.routineStarted)
+//@ modifies Schema.db@s, Schema.object@s, Schema.Fields@s, Schema.transformers@s, Schema.ObjectIndex@s, Schema.AsyncWrites@s
+//@ allocates Async.Enable, Async.Threshold, Async.Timeout, Async.routineStarted, Elem[*indexedField], Elem[string], MapCard[string,*fieldIndex], MapCard[string,FieldDescriptor], MapCard[string,uint64], MapCard[uint64,*indexedField], MapCard[uint64,string], MapDom[string,*fieldIndex], MapDom[string,FieldDescriptor], MapDom[string,uint64], MapDom[uint64,*indexedField], MapDom[uint64,string], MapVal[string,*fieldIndex], MapVal[string,uint64], MapVal[uint64,*indexedField], MapVal[uint64,string], fieldIndex.Cast, fieldIndex.Constraints.Index, fieldIndex.Constraints.Lower, fieldIndex.Constraints.Unique, fieldIndex.Constraints.Upper, fieldIndex.Index, fieldIndex.Name, fieldIndex.nameSplit, fieldIndex.objectIds, fieldIndex.pos, objIndex.Fields, objIndex.ObjectIds, objIndex.base, objIndex.i, objIndex.otype, objIndex.uuids, objIndex.ver
+//@ allocates MapVal[string,FieldDescriptor].Constraints.Index, MapVal[string,FieldDescriptor].Constraints.Lower, MapVal[string,FieldDescriptor].Constraints.Unique, MapVal[string,FieldDescriptor].Constraints.Upper, MapVal[string,FieldDescriptor].Path, MapVal[string,FieldDescriptor].Type
+
+//@ func (*Schema).isCompatibleWith
+//@ serves C17
+//@ requires s != nil && other != nil
+//@ ensures [C17 compat.iff] (err == nil) == (s.Extension == other.Extension && sameDescs(s.Fields, other.Fields))
+//@ ensures [C17 compat.class] imp(err != nil, !isStorage(err) && (err == ErrExtensionMismatch || errIs(err, ErrUnkownField) || errIs(err, ErrFieldDescModif)))
+//@ modifies nothing
+//@ allocates Elem[interface{}], FieldDescriptor.Constraints.Index, FieldDescriptor.Constraints.Lower, FieldDescriptor.Constraints.Unique, FieldDescriptor.Constraints.Upper, FieldDescriptor.Path, FieldDescriptor.Type
+
+//@ func (*Schema).update
+//@ serves C10 C17
+//@ requires s != nil && from != nil && imp(s.AsyncWrites != nil, allocated(s.AsyncWrites)) && imp(from.AsyncWrites != nil, allocated(from.AsyncWrites))
+//@ let started bool := s.AsyncWrites != nil && s.AsyncWrites.routineStarted
+//@ ensures [C17 update.iff] (err == nil) == old(s.Extension == from.Extension && sameDescs(s.Fields, from.Fields))
+//@ ensures [C17 update.refused] imp(err != nil, !isStorage(err) && s.Cache == old(s.Cache) && s.AsyncWrites == old(s.AsyncWrites))
+//@ ensures [C10 C17 update.settings] imp(err == nil, s.Cache == from.Cache && s.AsyncWrites == from.AsyncWrites && imp(s.AsyncWrites != nil, s.AsyncWrites.routineStarted == started))
+//@ modifies Schema.Cache@s, Schema.AsyncWrites@s, Async.routineStarted
+//@ allocates Elem[interface{}], FieldDescriptor.Constraints.Index, FieldDescriptor.Constraints.Lower, FieldDescriptor.Constraints.Unique, FieldDescriptor.Constraints.Upper, FieldDescriptor.Path, FieldDescriptor.Type
+
+//@ func (*objectStore).drop
+//@ serves C17 C08 C09
+//@ requires [wf] wfStore(s) && of != nil
+//@ requires [C09 lock-free] HS == 0 && HM == 0 && SL == 0
+//@ let k string := stypeOf(dyntype(of))
+//@ ensures [C17 drop] s.m == old(s.m) && forallk(t, string, has(s.m, t) == (old(has(s.m, t)) && t != k) && imp(t != k, s.m[t] == old(s.m[t])))
+//@ ensures [C17 drop.wf] wfStore(s)
+//@ modifies MapDom[string,*objectMap]@s.m, MapCard[string,*objectMap]@s.m
+
+//@ func (*Constraints).Transformer
+//@ serves C15 C16
+//@ requires c != nil
+//@ ensures result == (c.Upper || c.Lower)
+//@ pure
+
+// Create: the schema guard (C17). What is proved: one critical section; a refusal (incompatible structure,
+// constraints or extension) happens before any file is written; re-creating a loaded collection with a
+// compatible schema keeps every stored value and the index, flushes pending writes before asynchronous
+// writes are switched off and drops the cache when caching is switched off; the handle stays well formed.
+//@ func (*DB).Create
+//@ serves C01 C08 C09 C10 C17
+//@ requires [wf] wfDB(db) && o != nil && dyntype(o) != tagof(*Schema) && imp(s.AsyncWrites != nil, allocated(s.AsyncWrites))
+//@ requires [C09 lock-free] lockFree()
+//@ let T string := stypeOf(dyntype(o))
+//@ assume [single-collection] forallk(t, string, imp(has(db.schemas, t), t == T))
+//@ assume [described-type] imp(s.Fields != nil, descType(s.Fields) == dyntype(o))
+//@ assume [default-index] s.ObjectIndex == nil
+//@ dead return 4 "update re-checks what isCompatibleWith has just accepted"
+//@ dead return 6 "Schema.initialize never fails"
+//@ assume [pending-loaded] imp(has(db.asyncw.m, stypeOf(dyntype(o))) && !forallk(u, string, !has(db.asyncw.m[stypeOf(dyntype(o))].m, u)), has(db.schemas, stypeOf(dyntype(o))))
+//@ ensures [C08 one-section] ACQ_H == old(ACQ_H) + 1 && lockFree()
+//@ callhint (*DB).flushAll [C17 writes-only-if-compatible] es != nil && es.Extension == cur(s).Extension && sameDescs(es.Fields, cur(s).Fields)
+//@ callhint (*DB).saveSchema [C17 saves-only-if-compatible] imp(old(has(db.schemas, T)), es != nil && es.Extension == cur(s).Extension && sameDescs(es.Fields, cur(s).Fields))
+//@ callhint (*Schema).update [C17 update-only-if-compatible] es != nil && es.Extension == cur(s).Extension && sameDescs(es.Fields, cur(s).Fields)
+//@ ensures [C17 Create.keeps-data] imp(old(has(db.schemas, T)), has(db.schemas, T) && db.schemas[T] == old(db.schemas[T]) && forallk(w, string, has(db.schemas[T].ObjectIndex.uuids, w) == old(has(db.schemas[T].ObjectIndex.uuids, w)) && value(db, db.schemas[T], w) == old(value(db, db.schemas[T], w))))
+//@ ensures [C01 Create.wf-base] wfDBbase(db)
+//@ ensures [C01 C10 C17 Create.wf] imp(err == nil && old(has(db.schemas, T)), collsOK(db))
+//@ modifies Ghost.ACQ_H, Ghost.FSk, Ghost.FSc, Schema.Cache, Schema.AsyncWrites, Async.routineStarted, MapDom[string,*Schema]@db.schemas, MapVal[string,*Schema]@db.schemas, MapCard[string,*Schema]@db.schemas, MapDom[string,Object], MapCard[string,Object], MapDom[string,*objectMap]@db.cache.m, MapCard[string,*objectMap]@db.cache.m
+//@ allocates Async.Enable, Async.Threshold, Async.Timeout, Elem[*indexedField], Elem[interface{}], Elem[os.DirEntry], Elem[string], Elem[uint8], FieldDescriptor.Constraints.Index, FieldDescriptor.Constraints.Lower, FieldDescriptor.Constraints.Unique, FieldDescriptor.Constraints.Upper, FieldDescriptor.Path, FieldDescriptor.Type, MapCard[string,*fieldIndex], MapCard[string,FieldDescriptor], MapCard[string,bool], MapCard[string,uint64], MapCard[uint64,*indexedField], MapCard[uint64,string], MapDom[string,*fieldIndex], MapDom[string,FieldDescriptor], MapDom[string,bool], MapDom[string,uint64], MapDom[uint64,*indexedField], MapDom[uint64,string], MapVal[string,*fieldIndex], MapVal[string,FieldDescriptor].Constraints.Index, MapVal[string,FieldDescriptor].Constraints.Lower, MapVal[string,FieldDescriptor].Constraints.Unique, MapVal[string,FieldDescriptor].Constraints.Upper, MapVal[string,FieldDescriptor].Path, MapVal[string,FieldDescriptor].Type, MapVal[string,bool], MapVal[string,uint64], MapVal[uint64,*indexedField], MapVal[uint64,string], Schema.Compress, Schema.Extension, Schema.Fields, Schema.ObjectIndex, Schema.coherent, Schema.db, Schema.object, Schema.transformers, fieldIndex.Cast, fieldIndex.Constraints.Index, fieldIndex.Constraints.Lower, fieldIndex.Constraints.Unique, fieldIndex.Constraints.Upper, fieldIndex.Index, fieldIndex.Name, fieldIndex.nameSplit, fieldIndex.objectIds, fieldIndex.pos, indexedField.ObjectId, indexedField.Value, objIndex.Fields, objIndex.ObjectIds, objIndex.base, objIndex.i, objIndex.otype, objIndex.uuids, objIndex.ver
